@@ -127,6 +127,7 @@ Fixpoint pp_tok (en : env) (e : expr) {struct e} : list tok :=
   | ETheN n => [TTheName n]
   | EAcc n x => [TThe; TSp; TName n; TSp; TOf; TSp] ++ pp_tok en x
   | EKey n => [TTheKey n]
+  | EField x => [TKw FField; TSp] ++ pp_tok en x
   end.
 
 (* ---- the parser ---- *)
@@ -201,6 +202,7 @@ Fixpoint parse_u (fuel : nat) (ts : list tok) {struct fuel} : option (expr * lis
     | TkProp n :: r => Some (EProp n, r)
     | TMinus :: r => match parse_u f r with Some (e, r') => Some (ENeg e, r') | None => None end
     | TNot :: r => match parse_u f r with Some (e, r') => Some (ENot e, r') | None => None end
+    | TKw FField :: r => match parse_u f r with Some (e, r') => Some (EField e, r') | None => None end
     | TSprite :: r =>
       match parse_u f r with
       | Some (a, TOp o :: r') =>
